@@ -867,3 +867,37 @@ SPECS["C05"]["theorems"] += [
 SPECS["C05"]["level_text"] += (' Run level: a whole Op history (whose backfill tokens are its own) and a whole HCOBS encoder run (no side condition) is '
     'ONE history of this vocabulary on the world whose handle table carries the tokens (op_run_is_wrun, enc_prefix_is_wrun, enc_run_is_wrun), so those '
     'worlds are Reachable exactly as C05 / C10 / C20 quantify.')
+
+# ---- track scale: LARGE-MAGNITUDE / LONG-HISTORY generator profiles (harness/src/scale_*.rs).  The families wrap the
+# existing executors, and `wpmodel scale_*` wraps the existing model drivers (lean/Woodpile/Driver/Scale.lean): run-length ops
+# (`rep`, `extendrun`), digested observations (`terse`), harness-only cases (`quiet`, where the list model would need minutes),
+# owners dropped by the unwinder of a caught panic (`scoped_panic`).  Few cases, many shards: a case moves megabytes.
+_SCALE_NOTE = (" Scale profiles (families scale_*): the same executors and model drivers behind a wrapper that adds run-length ops and digested "
+               "observations, aimed at regimes the ordinary generators never reach: arena chunks of the last size class (>= 1 MiB) being exhausted, "
+               "rewound or replaced while clones / anchored slices / zero-count anchors still reach them; regions larger than 1 MiB with placeholders at "
+               "in-slice offsets around 2^16 / 2^20 / 2^21 (2^24 harness-only); 255 ... 4097 (65537 harness-only) live slices, placeholders and anchors; "
+               "histories of thousands of rounds; EINTR bursts of 255 ... 4097 (2^16 ... 2^21+1 harness-only) at a carry-over refill; block sizes 2^k-1 "
+               "that leave one byte of room in the arena chunk; owners of arena memory dropped by the unwinder of a caught panic. Extra direct oracles "
+               "in the wrapper: C03 readable = total_size when nothing is pending, C05 overlapping arena slices in one iovec / bytes changing under a "
+               "live anchored slice, C09 drained ++ consumable is a growing prefix and drained ++ finish() equals a one-call run, C10 counters after a "
+               "caught panic, C17 request sizes. 'harness-only' cases run the real code and the oracles but are not replayed by the model.")
+
+def _scale(pid, name, obs, quick, thorough, search, shards_q=8):
+    SPECS[pid]["families"].append(dict(name=name, quick=quick, thorough=thorough, search=search,
+                                       shards=dict(quick=shards_q, thorough=16), obs_prefixes=obs, timeout=3600))
+    if "Scale profiles" not in SPECS[pid]["level_text"]:
+        SPECS[pid]["level_text"] += _SCALE_NOTE
+
+_scale("C03", "scale_iovec", ["A", "R", "P"], 8, 320, 640)
+_scale("C04", "scale_iovec", ["A", "R", "P"], 8, 320, 640)
+_scale("C05", "scale_iovec", ["A", "S", "T", "L", "R", "P"], 8, 320, 640)
+_scale("C05", "scale_codec", ["A", "S", "T", "L", "R", "G"], 4, 160, 320, 4)
+_scale("C09", "scale_codec", ["A", "S", "G", "R"], 4, 160, 320, 4)
+_scale("C09", "scale_iovec", ["A", "R", "P"], 8, 320, 640)
+_scale("C10", "scale_iovec", ["L", "P"], 8, 320, 640)
+_scale("C10", "scale_codec", ["L", "G"], 4, 160, 320, 4)
+_scale("C20", "scale_iovec", ["A", "R", "P"], 8, 320, 640)
+_scale("C06", "scale_reader", None, 16, 320, 640)
+_scale("C08", "scale_chunker", None, 16, 320, 640)
+_scale("C17", "scale_chunker", None, 16, 320, 640)
+_scale("C17", "scale_codec", ["A", "S", "G", "R"], 4, 160, 320, 4)
